@@ -289,6 +289,14 @@ func (m *MonValSet) judge(s *Sim, h int64, tmSet ValSet, evs events.Events, evCh
 	where := "end-block"
 	if v.Genesis {
 		where = "init-chain"
+		// the harness exports from disk; right after InitChain the elected validator list only exists in memory
+		// (it is committed with the first block), so it is read through the accessor
+		cp := *s.Post
+		cp.Validators = nil
+		for _, val := range s.N.App.CurrentState().Validators().GetValidators() {
+			cp.Validators = append(cp.Validators, types.Validator{TotalBipStake: val.GetTotalBipStake().String(), PubKey: val.PubKey, AccumReward: val.GetAccumReward().String(), AbsentTimes: val.AbsentTimes})
+		}
+		post = &cp
 	}
 	viol := func(rule, site, detail string) {
 		s.Report(Violation{Property: "C17", Rule: rule, Site: site, Height: h, TxIndex: -1, Detail: where + ": " + detail})
@@ -841,6 +849,28 @@ func c17Build(idx int, r *rand.Rand) *c17Plan {
 			c17SetBaseStakes(gen, g, []types.Address{g.OwnerAddress}, []*big.Int{Bip(3000000000000)})
 		}
 	case "slots", "slots-genesis":
+		// base-coin stakes only in the genesis of these shapes: with custom-coin stakes and genesis kicks the two
+		// recalculations of InitChain give different bip values, and the harness's export right after InitChain
+		// (Candidates.Export reloads the stakes from the tree committed between the two) then leaves validators and
+		// stakes inconsistent, which ends the history with a "Negative remainder" panic at the first payout
+		for i := range gen.Candidates {
+			c := &gen.Candidates[i]
+			var keep []types.Stake
+			total := new(big.Int)
+			for _, st := range c.Stakes {
+				if st.Coin == 0 {
+					keep = append(keep, st)
+					total.Add(total, BI(st.Value))
+				}
+			}
+			c.Stakes = keep
+			c.TotalBipStake = total.String()
+			for j := range gen.Validators {
+				if gen.Validators[j].PubKey == c.PubKey {
+					gen.Validators[j].TotalBipStake = total.String()
+				}
+			}
+		}
 		x := &gen.Candidates[nv] // first extra candidate: offline, 1000 delegators with distinct static stakes
 		x.Status = 1
 		var owners []types.Address
@@ -862,9 +892,9 @@ func c17Build(idx int, r *rand.Rand) *c17Plan {
 			u := func(i int) types.Address { return w.Users[i%len(w.Users)].Addr }
 			min := BI(vals[0].String())
 			ups := []types.Stake{
-				{Owner: u(1), Coin: 0, Value: min.String(), BipValue: min.String()},                                         // equal to the smallest: takes its place
-				{Owner: u(2), Coin: 0, Value: new(big.Int).Sub(min, big.NewInt(1)).String(), BipValue: "0"},                 // one pip smaller: waitlist
-				{Owner: u(3), Coin: 0, Value: new(big.Int).Add(min, Bip(int64(1+r.Intn(50)))).String(), BipValue: "0"},      // larger
+				{Owner: u(1), Coin: 0, Value: min.String(), BipValue: min.String()},                                       // equal to the smallest: takes its place
+				{Owner: u(2), Coin: 0, Value: new(big.Int).Sub(min, big.NewInt(1)).String(), BipValue: "0"},               // one pip smaller: waitlist
+				{Owner: u(3), Coin: 0, Value: new(big.Int).Add(min, Bip(int64(1+r.Intn(50)))).String(), BipValue: "0"},    // larger
 				{Owner: p.eKey[5+r.Intn(500)].Addr, Coin: 0, Value: Bip(int64(1 + r.Intn(1000))).String(), BipValue: "0"}, // top-up of an existing stake
 			}
 			switch r.Intn(3) {
@@ -976,9 +1006,9 @@ func init() {
 	MonitorsFor["C17"] = mons
 	Register(&CheckDef{
 		ID: "C17", Level: "exploration",
-		Rule: "generated histories over six genesis shapes (standard families; 98..106 candidates with many equal stakes around rank 100 and one validator far down the ranking; 70..90 eligible candidates with equal stakes around rank 64, stakes of exactly 1000 BIP and 1000 BIP minus one pip, a giant stake that rounds other powers to zero; a validator with 1000+ delegators and an offline candidate with exactly 1000 delegators, with pending genesis updates equal to / one pip below / above the smallest stake) driven by the state-aware generator with staking transactions weighted up plus hand-made delegations around the smallest stake of full candidates (just above, equal, larger, the smallest holder tops up while a newcomer brings exactly the next smallest value); one evaluation = one recalculation (InitChain or an EndBlock that returned validator updates) whose resulting set, powers, per-stake conservation, removals and waitlist moves were compared with the reference; distinct = set classes (eligible <=/> 64, tie at the cut), limit classes (>100, exactly 100, removal, validator kept), slot classes (kinds of losers, incoming took a slot, full without kicks), power raised to 1",
+		Rule:        "generated histories over six genesis shapes (standard families; 98..106 candidates with many equal stakes around rank 100 and one validator far down the ranking; 70..90 eligible candidates with equal stakes around rank 64, stakes of exactly 1000 BIP and 1000 BIP minus one pip, a giant stake that rounds other powers to zero; a validator with 1000+ delegators and an offline candidate with exactly 1000 delegators, with pending genesis updates equal to / one pip below / above the smallest stake) driven by the state-aware generator with staking transactions weighted up plus hand-made delegations around the smallest stake of full candidates (just above, equal, larger, the smallest holder tops up while a newcomer brings exactly the next smallest value); one evaluation = one recalculation (InitChain or an EndBlock that returned validator updates) whose resulting set, powers, per-stake conservation, removals and waitlist moves were compared with the reference; distinct = set classes (eligible <=/> 64, tie at the cut), limit classes (>100, exactly 100, removal, validator kept), slot classes (kinds of losers, incoming took a slot, full without kicks), power raised to 1",
 		Assumptions: []string{"the state right before EndBlock is read through the candidates' own export, waitlist and frozen-fund accessors after the last DeliverTx", "total_bip_stake and per-stake bip values of custom coins are taken as exported (their computation is not part of this property); losers in custom coins are not ranked", "the Tendermint validator set is the accumulation of the returned updates"},
-		Quick: 40, Thorough: 640, MinEval: 250, MinDistinct: 14,
+		Quick:       40, Thorough: 640, MinEval: 250, MinDistinct: 14,
 		Post: func(total *WorkerResult) {
 			RequireSeen(total, "set: end-block eligible>64", "limit: candidate beyond rank 100 removed, stakes frozen", "limit: current validator ranked beyond 100 kept",
 				"slots: incoming stake took a slot of a full candidate", "slots: incoming loser smaller than every survivor", "slots: existing loser", "power: raised to 1")
